@@ -2,11 +2,15 @@
 """Write /verif/SENSITIVITY.md from /verif/seeded/*/meta.json and the log of tools/sens_all.sh
 (usage: mk_sensitivity.py <sens_all log> )."""
 import json, glob, os, re, sys
-log = open(sys.argv[1]).read() if len(sys.argv) > 1 and os.path.exists(sys.argv[1]) else ""
+logf = sys.argv[1] if len(sys.argv) > 1 else "/verif/sensitivity-logs/mutants-final.log"
+log = open(logf, errors="replace").read() if os.path.exists(logf) else ""
+equiv = {"m07-roundup-off-by-one-large": "equivalent mutant: large slots stay multiples of 128 that hold the record; no property is affected",
+         "m18-read-fill-writes": "equivalent for the listed properties: the two writes cancel out, the closed files are byte-identical (C15 holds)"}
 rows = {}
 for m in re.finditer(r"^(\S+) SUMMARY detected-by:(.*)$", log, re.M):
     rows[m.group(1)] = m.group(2).split() if "NONE" not in m.group(2) else []
 invalid = {m.group(1): m.group(2) for m in re.finditer(r"^(\S+) (EXISTING-TESTS-FAIL|BUILD-FAILED|PATCH-FAILED)", log, re.M)}
+partial = {m.group(1): m.group(2) for m in re.finditer(r"^(\S+) PARTIAL (.*)$", log, re.M)}
 first_sig = {}
 for m in re.finditer(r"^(\S+) (C\d+) DETECTED (.*)$", log, re.M):
     first_sig.setdefault((m.group(1), m.group(2)), m.group(3)[:110])
@@ -49,7 +53,10 @@ for name in sorted(desc):
     if name in invalid:
         out.append(f"| {name} | `{desc[name]}` | not a valid mutant: {invalid[name]} |")
     elif name in rows:
-        out.append(f"| {name} | `{desc[name]}` | {' '.join(rows[name]) or '**none**'} |")
+        note = f" ({partial[name]})" if name in partial else ""
+        if not rows[name] and name in equiv:
+            note = f" ({equiv[name]})"
+        out.append(f"| {name} | `{desc[name]}` | {' '.join(rows[name]) or '**none**'}{note} |")
     else:
         out.append(f"| {name} | `{desc[name]}` | (not run) |")
 out += ["", "## 3. Property-preserving changes (no alarm expected)", "",
